@@ -16,6 +16,7 @@ Model (JSON):
 import json, sys
 
 CTYPE = {"u64": "uint64_t", "i32": "int32_t", "Pt": "struct Pt", "slice": "struct CSliceRef_u8", "ptr": "const uint8_t *", "void": "void",
+         "vptr": "void *", "cvptr": "const void *",
          "cbPt": "OpaqueCallback_Pt", "cbu64": "OpaqueCallback_u64", "fnptr": "void (*)(int32_t)"}
 CB_ELEM = {"cbPt": ("Pt", "struct Pt"), "cbu64": ("u64", "uint64_t")}
 INST_NAME = {"Box": "CBox_c_void", "Mut": "____c_void", "Ref": "_____c_void"}
